@@ -233,6 +233,97 @@ func C16(p *core.Prog, r *core.Report) {
 			r.Bad("LAYOUT-ARITH", "seqio.fromOriginLength", p.Pos(fns["fromOriginLength"].fd.Pos()), bad+": Len() and Bytes() disagree with what was written")
 		}
 	}
+	// LOOP-BOUND: indices of residues are compared with the residue count strictly
+	r.Rule("LOOP-BOUND", "in the ORIGIN writer, decoder and readers every loop condition that compares a residue index (a sum of loop variables) with the residue count is the strict `index < count`: an inclusive bound makes the reader expect, or the writer emit, one group or residue more than the other side", 6)
+	for _, name := range names2(fns) {
+		lf := fns[name]
+		info := p.Info(core.PkgSeqio)
+		var loopVars = map[types.Object]bool{}
+		k := 0
+		ast.Inspect(lf.fd.Body, func(n ast.Node) bool {
+			fs, ok := n.(*ast.ForStmt)
+			if !ok {
+				return true
+			}
+			if in, ok := fs.Init.(*ast.AssignStmt); ok {
+				for _, l := range in.Lhs {
+					if o := core.ObjOf(info, l); o != nil {
+						loopVars[o] = true
+					}
+				}
+			}
+			if fs.Cond == nil {
+				return true
+			}
+			core.Facts(fs.Cond, true, func(atom ast.Expr, val bool) {
+				be, ok := ast.Unparen(atom).(*ast.BinaryExpr)
+				if !ok || !val {
+					return
+				}
+				isIdx := func(e ast.Expr) bool {
+					okAll, any := true, false
+					ast.Inspect(e, func(m ast.Node) bool {
+						if m == nil {
+							return true
+						}
+						switch x := m.(type) {
+						case *ast.Ident:
+							if loopVars[core.ObjOf(info, x)] {
+								any = true
+							} else {
+								okAll = false
+							}
+						case *ast.BinaryExpr:
+							if x.Op != token.ADD {
+								okAll = false
+							}
+						case *ast.ParenExpr:
+						default:
+							okAll = false
+						}
+						return true
+					})
+					return okAll && any
+				}
+				isCount := func(e ast.Expr) bool {
+					if _, isC := core.ConstInt(info, e); isC {
+						return false
+					}
+					switch x := ast.Unparen(e).(type) {
+					case *ast.Ident:
+						return !loopVars[core.ObjOf(info, x)]
+					case *ast.CallExpr:
+						return core.IsBuiltin(info, x, "len")
+					}
+					return false
+				}
+				var op token.Token
+				switch {
+				case isIdx(be.X) && isCount(be.Y):
+					op = be.Op
+				case isIdx(be.Y) && isCount(be.X):
+					switch be.Op {
+					case token.GTR:
+						op = token.LSS
+					case token.GEQ:
+						op = token.LEQ
+					default:
+						op = token.ILLEGAL
+					}
+				default:
+					return
+				}
+				k++
+				key := fmt.Sprintf("seqio.%s|loop-bound#%d", name, k)
+				if op == token.LSS {
+					r.Ok("LOOP-BOUND", key, p.Pos(atom.Pos()), "`"+types.ExprString(atom)+"`")
+				} else {
+					r.Bad("LOOP-BOUND", key, p.Pos(atom.Pos()), "`"+types.ExprString(atom)+"` is not the strict `index < count`: this side of the layout walks one group or residue further than the other (a block whose length is a multiple of the group size is rejected or over-read)")
+				}
+			})
+			return true
+		})
+	}
 	// GUARD-MIN: (*Origin).Bytes treats a block as empty exactly when it is shorter than the smallest non-empty block (W+3 bytes)
 	r.Rule("GUARD-MIN", "(*Origin).Bytes returns no residues exactly for blocks shorter than the smallest non-empty block, W+3 bytes (index, space, one residue, newline)", 1)
 	if ob := fns["Origin.Bytes"]; ob != nil {
@@ -402,4 +493,13 @@ func OriginLen(p *core.Prog, r *core.Report) {
 func isByte(t types.Type) bool {
 	b, ok := t.Underlying().(*types.Basic)
 	return ok && (b.Kind() == types.Byte || b.Kind() == types.Uint8)
+}
+
+func names2(m map[string]*layoutFn) []string {
+	var out []string
+	for n := range m {
+		out = append(out, n)
+	}
+	sort.Strings(out)
+	return out
 }
